@@ -82,6 +82,16 @@ def conv(kind="conv", ifm=(1, 16, 16, 8), k=(3, 3), s=(1, 1), d=(1, 1), same=Tru
     return n.model(), subj
 
 
+def _conv_noquant():
+    r = conv("conv")
+    if r is None:
+        return None
+    m, subj = r
+    sg = m["subgraphs"][0]
+    sg["tensors"][sg["ops"][subj]["outputs"][0]]["quant"] = None
+    return m, subj
+
+
 def pool(op="MAX_POOL_2D", ifm=(1, 16, 16, 8), k=(2, 2), s=(2, 2), same=False, dt="int8", odt=None, act=0, wrap=False):
     n, x = _net(ifm, dt)
     if wrap:
@@ -338,12 +348,52 @@ def split(shape=(1, 8, 8, 8), axis=3, num=2, dt="int8"):
     return n.model(), 0
 
 
+def with_exempt_branches(model, subj, first):
+    """adds three independent operators that are exempt from some generic constraint (QUANTIZE, TRANSPOSE without quantisation
+    parameters, ARG_MAX), each on its own graph input; `first` puts their results before the original graph outputs (operators
+    are visited from the outputs), otherwise after.  The subject keeps its index."""
+    import copy
+
+    m = copy.deepcopy(model)
+    sg = m["subgraphs"][0]
+    T = sg["tensors"]
+
+    def tens(name, shape, dtype, quant, data=None):
+        T.append(dict(name=name, shape=list(shape), dtype=dtype, quant=quant, data=data))
+        return len(T) - 1
+
+    q = dict(scale=[0.05], zp=[0])
+    a = tens("xq_in", [1, 4, 4, 8], "int8", dict(q))
+    b = tens("xq_out", [1, 4, 4, 8], "int8", dict(scale=[0.1], zp=[3]))
+    c = tens("xt_in", [1, 4, 6, 8], "int8", None)
+    perm = tens("xt_perm", [4], "int32", None, data=np.asarray([0, 2, 1, 3], dtype=np.int32))
+    d = tens("xt_out", [1, 6, 4, 8], "int8", None)
+    e = tens("xa_in", [1, 4, 4, 8], "int8", dict(q))
+    ax = tens("xa_axis", [], "int32", None, data=np.asarray(3, dtype=np.int32))
+    f = tens("xa_out", [1, 4, 4], "int32", None)
+    extra = [dict(op="QUANTIZE", inputs=[a], outputs=[b], opts=("QuantizeOptions", {}), custom=None, version=1),
+             dict(op="TRANSPOSE", inputs=[c, perm], outputs=[d], opts=("TransposeOptions", {}), custom=None, version=1),
+             dict(op="ARG_MAX", inputs=[e, ax], outputs=[f], opts=("ArgMaxOptions", dict(OutputType=2)), custom=None, version=1)]
+    sg["ops"] = sg["ops"] + extra
+    sg["inputs"] = list(sg["inputs"]) + [a, c, e]
+    sg["outputs"] = ([b, d, f] + list(sg["outputs"])) if first else (list(sg["outputs"]) + [b, d, f])
+    return m, subj
+
+
+# instances that are additionally compiled next to operators exempt from generic constraints (the checker must not carry an
+# exemption from one operator to the next)
+EXEMPT_PROBES = ("probe",)
+
+
 def families(tier):
     F = []
 
     def add(name, res):
         if res is not None:
             F.append((name, res[0], res[1]))
+            if name.split(".")[0] in EXEMPT_PROBES or name in EXEMPT_PROBES:
+                F.append((name + ".exempt_first",) + with_exempt_branches(res[0], res[1], True))
+                F.append((name + ".exempt_last",) + with_exempt_branches(res[0], res[1], False))
 
     thorough = tier != "quick"
     # ---- convolution / depthwise: strides, kernels, dilation, padding, types, bias, weights, activation, batch
@@ -417,6 +467,17 @@ def families(tier):
                 add("%s.act%d" % (op, act), binary(op, act=act))
             add(op + ".act1.int32", binary(op, adt="int32", act=1))
         add(op + ".wrap", binary(op, bconst=True, wrap=True))
+    # ---- probes for the generic constraints from which some operators are exempt
+    for op in ("ADD", "MUL", "SUB"):
+        add("probe.%s.int32.noquant" % op, binary(op, adt="int32", noquant=True))
+        add("probe.%s.int8.noquant" % op, binary(op, adt="int8", noquant=True))
+        add("probe.%s.int8.ok" % op, binary(op, adt="int8"))
+        add("probe.%s.int8.scalar_const" % op, binary(op, b=(), bconst=True))
+    for op in ("RELU", "ABS", "LEAKY_RELU"):
+        add("probe.%s.int8.noquant" % op, unary(op, noquant=True))
+        add("probe.%s.int8.ok" % op, unary(op))
+    add("probe.conv.noquant_ofm", _conv_noquant())
+    add("probe.maxpool.f32", pool("MAX_POOL_2D", dt="int8", odt="int8"))
     # ---- unary
     for op in UNARY_OPTS:
         for dt, odt in (("int8", "int8"), ("uint8", "uint8"), ("int16", "int16"), ("int32", "int32"), ("int8", "uint8"), ("int8", "int16"), ("uint8", "int8")):
